@@ -122,6 +122,13 @@ CHECKS = {
             "callback left, no deadlock). Liveness (no sleeping through a wake-up) is judged in virtual time; stalls whose wait began after "
             "another thread had received the awaited reply are the known finding D7 (shared with C14), all other stalls are violations.",
             "DESIGN.md C13", "Known finding D7 recorded in known_findings.json."),
+    "C20": ("exploration",
+            "deterministic simulation supplies the two peers and a fragmenting/compressing transport; the deciding step is seeded generation of trees, sizes, chunk sizes and filters with a byte-wise tree comparison",
+            "Weakest fit of the technique (stated in DESIGN.md): the property quantifies over inputs and configurations; it is claimed because the copy "
+            "loops drive a remote file object and remote os functions through proxies between two live peers. Seeded trees with sizes around "
+            "multiples of the chunk size, six chunk sizes, five filters, upload/download, file/tree, existing/missing destination; real files in a "
+            "scratch directory; oracle = recursive byte-wise comparison restricted to what the filter accepts, nothing else created.",
+            "DESIGN.md C20", ""),
 }
 
 NOT_APPLICABLE = {
